@@ -11,11 +11,14 @@ pub mod c06;
 pub mod c07;
 pub mod c08;
 pub mod c09;
+pub mod c10;
+pub mod c11;
 pub mod c15;
 pub mod c16;
 pub mod c17;
 pub mod c18;
 pub mod c19;
+pub mod c20;
 
 /// total number of cases over all shards
 pub fn cases(prop: &str, tier: Tier) -> u64 {
@@ -28,11 +31,14 @@ pub fn cases(prop: &str, tier: Tier) -> u64 {
         "C07" => c07::cases(tier),
         "C08" => c08::cases(tier),
         "C09" => c09::cases(tier),
+        "C10" => c10::cases(tier),
+        "C11" => c11::cases(tier),
         "C15" => c15::cases(tier),
         "C16" => c16::cases(tier),
         "C17" => c17::cases(tier),
         "C18" => c18::cases(tier),
         "C19" => c19::cases(tier),
+        "C20" => c20::cases(tier),
         _ => panic!("unknown property {}", prop),
     }
 }
@@ -47,11 +53,14 @@ pub fn run_case(prop: &str, env: &Env, ctx: &mut Ctx, idx: u64) {
         "C07" => c07::run_case(env, ctx, idx),
         "C08" => c08::run_case(env, ctx, idx),
         "C09" => c09::run_case(env, ctx, idx),
+        "C10" => c10::run_case(env, ctx, idx),
+        "C11" => c11::run_case(env, ctx, idx),
         "C15" => c15::run_case(env, ctx, idx),
         "C16" => c16::run_case(env, ctx, idx),
         "C17" => c17::run_case(env, ctx, idx),
         "C18" => c18::run_case(env, ctx, idx),
         "C19" => c19::run_case(env, ctx, idx),
+        "C20" => c20::run_case(env, ctx, idx),
         _ => panic!("unknown property {}", prop),
     }
 }
